@@ -22,6 +22,10 @@ class Injected(OSError):
     pass
 
 
+class InjectedPermission(Injected, PermissionError):
+    """what a refused rename is (EACCES / EPERM)"""
+
+
 class Recorder(object):
     def __init__(self, root, named, old, new_bytes, fault):
         self.root = root            # private working directory (cwd of the call)
@@ -83,7 +87,7 @@ class Recorder(object):
 
     def should_fail(self, at, k=0):
         f = self.fault
-        if f and f.get("at") == at and f.get("k", 0) == k and not self.fired:
+        if f and f.get("at") == at and f.get("k", 0) == k and (not self.fired or (at == "move" and f.get("persist"))):
             self.fired = True
             return True
         return False
@@ -127,6 +131,10 @@ class WriteProxy(object):
             if n:
                 self._real.write(data[:n])
                 self._real.flush()
+            if n and isinstance(self._real, io.RawIOBase):
+                # an UNBUFFERED file reports a short write by its return value, it does not raise
+                r.event("write", k=k, role=self._role, failed=True)
+                return n
             self._pending = data[n:]
             r.event("write", k=k, role=self._role, failed=True)
             raise Injected(errno.ENOSPC, "injected write failure")
@@ -265,7 +273,7 @@ def run_save(doc, fmt, name_class, existing, cross_fs, fault, args=None):
             raise OSError(errno.EXDEV, "injected: cross-device link")
         if rec.should_fail("move"):
             rec.event("move", failed=True)
-            raise Injected(errno.EACCES, "injected move failure")
+            raise InjectedPermission(errno.EACCES, "injected move failure")
         r = real["rename"](src, dst, *a, **kw)
         rec.event("move", failed=False)
         return r
@@ -275,7 +283,7 @@ def run_save(doc, fmt, name_class, existing, cross_fs, fault, args=None):
             raise OSError(errno.EXDEV, "injected: cross-device link")
         if rec.should_fail("move"):
             rec.event("move", failed=True)
-            raise Injected(errno.EACCES, "injected move failure")
+            raise InjectedPermission(errno.EACCES, "injected move failure")
         r = real["replace"](src, dst, *a, **kw)
         rec.event("move", failed=False)
         return r
@@ -285,7 +293,7 @@ def run_save(doc, fmt, name_class, existing, cross_fs, fault, args=None):
         if rec.fault.get("at") == "move" and rec.fired:
             # the injected failure of the move: shutil.move treats a failing rename as
             # "other device" and falls back to copying, so the fallback fails as well
-            raise Injected(errno.EACCES, "injected move failure")
+            raise InjectedPermission(errno.EACCES, "injected move failure")
         rec.event("copy_begin")
         with real["open"](src, "rb") as fsrc:
             data = fsrc.read()
